@@ -8,14 +8,14 @@
 compares).  props/c03.py imports SHAPES from here for its generators (names, alphabets).
 
 Shape description (nested tuples):
-  ("arg", label, ty)                              argument<label, ty>
-  ("flag", label, short|None, long, ty, act, inact)   flag<label, ty>
-  ("switch", label, short|None, long)             switch_<label>
-  ("opt", label, short|None, long, ty, default|None)  option<label, ty>
+  ("arg", label, ty, help|None)                         argument<label, ty>  (its long_name is label + "_arg")
+  ("flag", label, short|None, long, ty, act, inact, help|None)   flag<label, ty>
+  ("switch", label, short|None, long, help|None)        switch_<label>
+  ("opt", label, short|None, long, ty, default|None, help|None)  option<label, ty>
   ("unit", label)                                 unit<label>
   ("uswitch", label, short|None, long)            unit_switch<label>
   ("optional", p) ("many", p) ("prod", a, b) ("sum", label, a, b)
-  ("commands", common, [(name, taglabel, p), ...])            make_commands(std::move(...)...)
+  ("commands", common, [(name, taglabel, p[, help]), ...])    make_commands(std::move(...)...)
   ("commands", common, subs, "lvalue")                        make_commands(lvalues...): the forwarding constructor copies
   ("apply", [p1, ..., pn])   n >= 2: fcppt::options::apply(p1, ..., pn) = product(p1, product(p2, ...))
   ("ref", p)    the parent gets fcppt::make_cref(p)             (parsers held by reference; the model sees p)
@@ -28,10 +28,10 @@ import sys
 
 ROOT = os.path.dirname(os.path.dirname(os.path.abspath(__file__)))
 
-A = lambda l, ty: ("arg", l, ty)
-F = lambda l, sh, lg, ty, act, inact: ("flag", l, sh, lg, ty, act, inact)
-SW = lambda l, sh, lg: ("switch", l, sh, lg)
-O = lambda l, sh, lg, ty, d=None: ("opt", l, sh, lg, ty, d)
+A = lambda l, ty, h=None: ("arg", l, ty, h)
+F = lambda l, sh, lg, ty, act, inact, h=None: ("flag", l, sh, lg, ty, act, inact, h)
+SW = lambda l, sh, lg, h=None: ("switch", l, sh, lg, h)
+O = lambda l, sh, lg, ty, d=None, h=None: ("opt", l, sh, lg, ty, d, h)
 U = lambda l: ("unit", l)
 US = lambda l, sh, lg: ("uswitch", l, sh, lg)
 OPT = lambda p: ("optional", p)
@@ -197,6 +197,18 @@ S(CMD(SW("a", None, "f"), [("go", "x", U("b")), ("go", "y", U("c")), ("go", "z",
 S(MANY(BASE(P(SW("a", None, "f"), SW("b", "f", "g")))), "duplicate behind make_base", kind="ctor")
 
 
+# ---- help texts, usage strings (ids appended)
+S(P(A("a", "int", "the count"), SW("b", "v", "verbose", "be loud")), "help texts on argument and switch, parse_help with a short name", help=("h", "help"))
+S(CMD(P(O("a", "o", "out", "str", None, "output file"), SW("b", None, "dry", "do nothing")),
+      [("add", "x", P(A("c", "str", "what to add"), O("d", None, "n", "int", 3, "how often")), "adds things"),
+       ("rm", "y", U("e"), "removes"),
+       ("ls", "z", OPT(O("g", "l", "long", "enm", None, "colour")))]),
+  "commands with help texts on every level, parse_help with default_help_switch()", help="default")
+S(SUM("s", P(F("a", "m", "mode", "str", "fast", "slow", "two\nlines"), A("b", "uns")), MANY(O("c", "i", "inc", "str", None, "include\npath"))),
+  "sum with multi-line help texts (indent works line by line)", help=(None, "usage"))
+S(OPT(SUM("s", SUM("t", US("a", "x", "ex"), US("b", None, "why")), P(O("c", None, "o", "enm", 2, "third colour"), MANY(A("d", "enm", "colours"))))),
+  "nested sums below optional, enum option with default (usage prints the default and the enumerator list)")
+
 SHAPES = _S
 
 LABELS = ["a", "b", "c", "d", "e", "g", "s", "t", "x", "y", "z"]
@@ -224,7 +236,7 @@ def norm(p):
     if k == "sum":
         return ("sum", p[1], norm(p[2]), norm(p[3]))
     if k == "commands":
-        return ("commands", norm(p[1]), [(n, t, norm(q)) for n, t, q in p[2]])
+        return ("commands", norm(p[1]), [(x[0], x[1], norm(x[2]), x[3] if len(x) > 3 else None) for x in p[2]])
     return p
 
 
@@ -248,7 +260,7 @@ def leaves(p):
         return leaves(p[2]) + leaves(p[3])
     if k == "commands":
         r = leaves(p[1])
-        for _, _, q in p[2]:
+        for _, _, q, _ in p[2]:
             r += leaves(q)
         return r
     raise ValueError(k)
@@ -265,7 +277,7 @@ def command_names(p):
         return command_names(p[2]) + command_names(p[3])
     if k == "commands":
         r = command_names(p[1])
-        for n, _, q in p[2]:
+        for n, _, q, _ in p[2]:
             r += [n] + command_names(q)
         return r
     return []
@@ -331,14 +343,14 @@ def has_bad_many(p):
     if k == "sum":
         return has_bad_many(p[2]) or has_bad_many(p[3])
     if k == "commands":
-        return has_bad_many(p[1]) or any(has_bad_many(q) for _, _, q in p[2])
+        return has_bad_many(p[1]) or any(has_bad_many(x[2]) for x in p[2])
     return False
 
 
 # ------------------------------------------------------------------ Lean
 
 def lstr(s):
-    return '"' + s + '"'
+    return '"' + s.replace("\\", "\\\\").replace("\n", "\\n").replace('"', '\\"') + '"'
 
 
 def lopt(s):
@@ -359,14 +371,14 @@ def lean_op(p):
     p = norm(p)
     k = p[0]
     if k == "arg":
-        return f"(.arg {lstr(p[1])} .{p[2]})"
+        return f"(.arg {lstr(p[1])} .{p[2]} {lstr(p[1] + '_arg')} {lopt(p[3])})"
     if k == "flag":
-        return f"(.flag {lstr(p[1])} {lopt(p[2])} {lstr(p[3])} {lval(p[4], p[5])} {lval(p[4], p[6])})"
+        return f"(.flag {lstr(p[1])} {lopt(p[2])} {lstr(p[3])} {lval(p[4], p[5])} {lval(p[4], p[6])} {lopt(p[7])})"
     if k == "switch":
-        return f"(OP.switch {lstr(p[1])} {lopt(p[2])} {lstr(p[3])})"
+        return f"(OP.switch {lstr(p[1])} {lopt(p[2])} {lstr(p[3])} {lopt(p[4])})"
     if k == "opt":
         d = "none" if p[5] is None else f"(some {lval(p[4], p[5])})"
-        return f"(.opt {lstr(p[1])} {lopt(p[2])} {lstr(p[3])} {d} .{p[4]})"
+        return f"(.opt {lstr(p[1])} {lopt(p[2])} {lstr(p[3])} {d} .{p[4]} {lopt(p[6])})"
     if k == "unit":
         return f"(.unit {lstr(p[1])})"
     if k == "uswitch":
@@ -380,7 +392,7 @@ def lean_op(p):
     if k == "sum":
         return f"(.sum {lstr(p[1])} {lean_op(p[2])} {lean_op(p[3])})"
     if k == "commands":
-        subs = ", ".join(f"({lstr(n)}, {lstr(t)}, {lean_op(q)})" for n, t, q in p[2])
+        subs = ", ".join(f"({lstr(n)}, {lstr(t)}, {lopt(h)}, {lean_op(q)})" for n, t, q, h in p[2])
         return f"(.commands {lean_op(p[1])} [{subs}])"
     raise ValueError(k)
 
@@ -393,7 +405,7 @@ def gen_lean():
            "/-- what the harness constructs, in construction order: a parser object or a `sub_command` -/",
            "inductive Node where",
            "  | parser (p : OP)",
-           "  | sub (name : String)",
+           "  | sub (name : String) (help : Option String)",
            "",
            "structure Shape where",
            "  op : OP",
@@ -407,7 +419,7 @@ def gen_lean():
         h = "none" if not hh else f"(some ({lopt(hh[0])}, {lstr(hh[1])}))"
         e = Emit()
         e.top(s["p"])
-        nodes = ",\n     ".join(f".sub {lstr(n[1])}" if n[0] == "sub" else f".parser {lean_op(n[1])}" for n in e.nodes)
+        nodes = ",\n     ".join(f".sub {lstr(n[1])} {lopt(n[2])}" if n[0] == "sub" else f".parser {lean_op(n[1])}" for n in e.nodes)
         rows.append(f"  -- {s['id']}: {s['note']}\n  ⟨{lean_op(s['p'])}, {h},\n    [{nodes}]⟩")
     out.append(",\n".join(rows))
     out.append("]")
@@ -419,7 +431,13 @@ def gen_lean():
 # ------------------------------------------------------------------ C++
 
 def cstr(s):
-    return 'fcppt::string{"' + s + '"}'
+    return 'fcppt::string{"' + s.replace("\\", "\\\\").replace("\n", "\\n").replace('"', '\\"') + '"}'
+
+
+def chelp(h):
+    if h is None:
+        return NOHELP
+    return "fcppt::options::optional_help_text{fcppt::options::help_text{" + cstr(h) + "}}"
 
 
 def cshort(s):
@@ -487,18 +505,18 @@ class Emit:
         k = p[0]
         me = ("parser", p)
         if k == "arg":
-            return self.var(f"fcppt::options::argument<L_{p[1]}, {CXX_TY[p[2]]}>{{{clong(p[1] + '_arg')}, {NOHELP}}}", me)
+            return self.var(f"fcppt::options::argument<L_{p[1]}, {CXX_TY[p[2]]}>{{{clong(p[1] + '_arg')}, {chelp(p[3])}}}", me)
         if k == "flag":
             ty = CXX_TY[p[4]]
             return self.var(f"fcppt::options::flag<L_{p[1]}, {ty}>{{{cshort(p[2])}, {clong(p[3])}, "
-                            f"fcppt::options::make_active_value({cval(p[4], p[5])}), fcppt::options::make_inactive_value({cval(p[4], p[6])}), {NOHELP}}}", me)
+                            f"fcppt::options::make_active_value({cval(p[4], p[5])}), fcppt::options::make_inactive_value({cval(p[4], p[6])}), {chelp(p[7])}}}", me)
         if k == "switch":
-            return self.var(f"fcppt::options::switch_<L_{p[1]}>{{{cshort(p[2])}, {clong(p[3])}, {NOHELP}}}", me)
+            return self.var(f"fcppt::options::switch_<L_{p[1]}>{{{cshort(p[2])}, {clong(p[3])}, {chelp(p[4])}}}", me)
         if k == "opt":
             ty = CXX_TY[p[4]]
             d = (f"fcppt::options::no_default_value<{ty}>()" if p[5] is None
                  else f"fcppt::options::make_default_value(fcppt::optional::object<{ty}>{{{cval(p[4], p[5])}}})")
-            return self.var(f"fcppt::options::option<L_{p[1]}, {ty}>{{{cshort(p[2])}, {clong(p[3])}, {d}, {NOHELP}}}", me)
+            return self.var(f"fcppt::options::option<L_{p[1]}, {ty}>{{{cshort(p[2])}, {clong(p[3])}, {d}, {chelp(p[6])}}}", me)
         if k == "unit":
             return self.var(f"fcppt::options::unit<L_{p[1]}>{{}}", me)
         if k == "uswitch":
@@ -528,9 +546,10 @@ class Emit:
                     raise ValueError("lvalue commands: the common parser must be a plain parser")
                 c = c[len("std::move("):-1]
             subs = []
-            for n, t, q in p[2]:
+            for x in p[2]:
+                n, t, q = x[0], x[1], x[2]
                 v = self.hand(q)
-                sv = self.var(f"fcppt::options::make_sub_command<L_{t}>({cstr(n)}, {v}, {NOHELP})", ("sub", n), sub=True)
+                sv = self.var(f"fcppt::options::make_sub_command<L_{t}>({cstr(n)}, {v}, {chelp(x[3] if len(x) > 3 else None)})", ("sub", n, x[3] if len(x) > 3 else None), sub=True)
                 subs.append(sv if lvalue else f"std::move({sv})")
             return self.var("fcppt::options::make_commands(" + c + "".join(f", {s}" for s in subs) + ")", me)
         raise ValueError(k)
